@@ -400,5 +400,9 @@ def straightline_env(stmts, env=None):
         elif isinstance(st, (ast.Expr, ast.Assert, ast.Pass, ast.AugAssign, ast.Continue, ast.Break, ast.Return)):
             continue
         else:
-            break
+            # a compound statement: what it may rebind is forgotten, the walk goes on
+            for n in ast.walk(st):
+                if isinstance(n, ast.Name) and isinstance(n.ctx, (ast.Store, ast.Del)):
+                    env.pop(n.id, None)
+            continue
     return env
